@@ -24,7 +24,9 @@ func init() {
 	}
 }
 
-func assign(name string, v *ast.Node) *ast.Node { return &ast.Node{K: ast.Assign, S: name, C: []*ast.Node{v}} }
+func assign(name string, v *ast.Node) *ast.Node {
+	return &ast.Node{K: ast.Assign, S: name, C: []*ast.Node{v}}
+}
 
 // ---- 1. scoping and closures
 
